@@ -21,7 +21,7 @@ class IndexEngine:
                  TsPatterns=tla_str_set(patterns), DelAts=tla_set([str(d) for d in delats]),
                  Family='"%s"' % family, PerturbFrom=str(perturb_from), SampleMod=str(sample[1]),
                  SampleKeep=str(sample[0]), Seed=str(self.run.seed))
-        text = cfg_text('Spec', c, ['LookupsEqualMemory', 'RunStartsInBuffer', 'EmitShape'])
+        text = cfg_text('Spec', c, ['LookupsEqualMemory', 'RunStartsInBuffer', 'AllKeyLengthsFit', 'RemainderClassesCovered', 'EmitShape'])
         r = self.run.tlc('GenIndex', text, name, workers=8, timeout=timeout)
         self.states += r['distinct']
         self.transitions += r['generated']
